@@ -64,7 +64,15 @@ func newInt64Literal(val int64) *int64Literal {
 
 func (i *int64Literal) Compare(other LiteralExpr) (int, bool) {
 	if o, ok := other.(*int64Literal); ok {
-		return int(i.int64 - o.int64), true
+		// Compare instead of subtracting: i.int64 - o.int64 overflows for
+		// operands of opposite sign near the int64 limits and flips the sign.
+		switch {
+		case i.int64 < o.int64:
+			return -1, true
+		case i.int64 > o.int64:
+			return 1, true
+		}
+		return 0, true
 	}
 	return 0, false
 }
